@@ -64,6 +64,8 @@ func main() {
 		{"GpkgWriterGen.v", genGpkgWriter},
 		{"GpkgSchemaGen.v", genGpkgSchema},
 		{"TmsAddrGen.v", genTmsAddr},
+		{"GeomHelpGen.v", genGeomHelp},
+		{"GeomHelpFloatGen.v", genGeomHelpFloat},
 	}
 	failed := false
 	for _, g := range gens {
